@@ -2,6 +2,7 @@ package main
 
 import (
 	"fmt"
+	"go/token"
 	"go/types"
 	"sort"
 
@@ -235,6 +236,46 @@ func runC09(w *World, r *Report) {
 	r.Rule("C09.errors-copied-on-extend", "wrapGraphNodeError / wrapStreamWrapperError never write through the error they are given (no in-place extension of an object other runs and callers may hold)", 2)
 	ruleNoMutateParams(w, r, "C09.errors-copied-on-extend", w.Fn("compose", "wrapGraphNodeError"), nil)
 	ruleNoMutateParams(w, r, "C09.errors-copied-on-extend", w.Fn("compose", "wrapStreamWrapperError"), nil)
+
+	r.Rule("C09.ctx-not-captured", "no per-call function literal of the bundled flows (one that has its own context.Context parameter) passes on a context captured from the constructor that built it", 1)
+	{
+		uses, examined := capturedCtxUses(w.RepoFuncs("flow"))
+		seen := map[string]bool{}
+		for _, u := range uses {
+			construct := fmt.Sprintf("%s uses captured context %s", w.fname(u.lit), u.fv.Name())
+			if seen[construct] {
+				continue
+			}
+			seen[construct] = true
+			// a literal nested in another per-call literal legitimately uses its parent's per-call context
+			parentPerCall := false
+			if p := u.lit.Parent(); p != nil && p.Parent() != nil {
+				for _, pp := range p.Params {
+					if isContextType(pp.Type()) && pp.Name() == u.fv.Name() {
+						parentPerCall = true
+					}
+				}
+			}
+			if p := u.lit.Parent(); p != nil && !parentPerCall {
+				// the enclosing function is itself called per run with that context (not a constructor) when the captured
+				// variable is one of ITS parameters and it is not a New*/build* style function returning the runnable
+				for _, pp := range p.Params {
+					if pp.Name() == u.fv.Name() && isContextType(pp.Type()) && !returnsLongLived(p) {
+						parentPerCall = true
+					}
+				}
+			}
+			if parentPerCall {
+				r.OK("C09.ctx-not-captured", construct, u.call.Pos(), "the captured context is the per-call context of the enclosing call")
+				continue
+			}
+			r.Fail("C09.ctx-not-captured", construct, u.call.Pos(), "the literal has a context parameter of its own but hands on the context its constructor was called with: every run shares that context at this point — values of the run's context (caller id, trace) are invisible, and a construction context that has been cancelled since (ctx, cancel := …; defer cancel() in an init function) is seen as cancelled by every run")
+		}
+		r.OK("C09.ctx-not-captured", fmt.Sprintf("%d per-call literals in flow/ examined", examined), token.NoPos, "captured contexts classified")
+		if examined < 5 {
+			undecidedf("C09.ctx-not-captured: only %d per-call literals found in flow/", examined)
+		}
+	}
 
 	r.Rule("C09.append-alias", "append on a slice held in a shared object is stored back to the same field or starts from a fresh slice", 1)
 	armedOwners := map[*types.Named]bool{}
@@ -534,3 +575,20 @@ func pointeeAllocs(v ssa.Value, d int) []*ssa.Alloc {
 }
 
 var guardedByExceptions = map[string]string{}
+
+// returnsLongLived: the function hands out something that outlives the call (a pointer / interface / func result): a
+// constructor. Its context parameter is the construction context.
+func returnsLongLived(fn *ssa.Function) bool {
+	res := fn.Signature.Results()
+	for i := 0; i < res.Len(); i++ {
+		switch res.At(i).Type().Underlying().(type) {
+		case *types.Pointer, *types.Signature:
+			return true
+		case *types.Interface:
+			if !isErrorType(res.At(i).Type()) {
+				return true
+			}
+		}
+	}
+	return false
+}
